@@ -8,4 +8,4 @@
    Only the extraction (the model run against the code) depends on this file;
    the theorems of Properties_C41.v are stated for explicit values of the flags. *)
 From PV Require Import Info.InfoDefs.
-Definition code_fixes : fixes := {| fx_reg := false; fx_ioa := false; fx_unreg := false |}.
+Definition code_fixes : fixes := {| fx_reg := true; fx_ioa := true; fx_unreg := true |}.
